@@ -455,4 +455,29 @@ func init() {
 		Variant{Name: "benign: translator constructor with locals", Property: "C13", File: trl, Benign: true,
 			Old: "\treturn &translatorImpl{\n\t\tlogger:      logger,\n\t\tmatchMethod: func(string) bool { return true },\n\t\tmatchReq:    createStringMatcher(reqMap),\n\t\tmatchResp:   createStringMatcher(respMap),", New: "\treqMatcher, respMatcher := createStringMatcher(reqMap), createStringMatcher(respMap)\n\treturn &translatorImpl{\n\t\tlogger:      logger,\n\t\tmatchMethod: func(string) bool { return true },\n\t\tmatchReq:    reqMatcher,\n\t\tmatchResp:   respMatcher,"},
 	)
+	// ---- behaviour-preserving refactorings around the rules added after the second seeding round
+	addVariants(
+		Variant{Name: "benign: createTCPServer through a local copy of the cluster definition", Property: "C19", File: cc, Benign: true,
+			Old: "\tgrpcServer, err := buildProxyServer(c, c.clusterDefinition.TcpServer.TLSConfig, observer.ReportStreamValue, lifetime)", New: "\tdef := c.clusterDefinition\n\tgrpcServer, err := buildProxyServer(c, def.TcpServer.TLSConfig, observer.ReportStreamValue, lifetime)"},
+		Variant{Name: "benign: NotifyMsg with an early return when nobody listens", Property: "C09", File: shm, Benign: true,
+			Old: "\t// Inform listeners about remote shard changes\n\tif sd.manager != nil && sd.manager.onRemoteShardChange != nil {\n\t\tadded := msg.Type == \"register\"\n", New: "\tif sd.manager == nil {\n\t\treturn\n\t}\n\t// Inform listeners about remote shard changes\n\tif sd.manager != nil && sd.manager.onRemoteShardChange != nil {\n\t\tadded := msg.Type == \"register\"\n"},
+		Variant{Name: "benign: watermark branch logs only when the watermark changed", Property: "C03", File: pst, Benign: true,
+			Old: "\t\t\t\tr.lastWatermarkMu.Lock()\n\t\t\t\tr.lastWatermark = &replicationv1.WorkflowReplicationMessages{", New: "\t\t\t\tr.lastWatermarkMu.Lock()\n\t\t\t\tif r.lastWatermark == nil || r.lastWatermark.ExclusiveHighWatermark != attr.Messages.ExclusiveHighWatermark {\n\t\t\t\t\tr.logger.Debug(\"watermark advanced\")\n\t\t\t\t}\n\t\t\t\tr.lastWatermark = &replicationv1.WorkflowReplicationMessages{"},
+		Variant{Name: "benign: same edit seen by C01", Property: "C01", File: pst, Benign: true,
+			Old: "\t\t\t\tr.lastWatermarkMu.Lock()\n\t\t\t\tr.lastWatermark = &replicationv1.WorkflowReplicationMessages{", New: "\t\t\t\tr.lastWatermarkMu.Lock()\n\t\t\t\tif r.lastWatermark == nil || r.lastWatermark.ExclusiveHighWatermark != attr.Messages.ExclusiveHighWatermark {\n\t\t\t\t\tr.logger.Debug(\"watermark advanced\")\n\t\t\t\t}\n\t\t\t\tr.lastWatermark = &replicationv1.WorkflowReplicationMessages{"},
+		Variant{Name: "benign: endpoint map filled through a local", Property: "C11", File: mcc, Benign: true,
+			Old: "\t\tconnMap[k] = v.Open\n", New: "\t\topen := v.Open\n\t\tconnMap[k] = open\n"},
+		Variant{Name: "benign: failure-chain loop counted from 1 with <=", Property: "C18", File: rep, Benign: true,
+			Old: "\tfor count := 0; failure != nil && count < maxFailureDepth; count++ {", New: "\tfor depth := 1; failure != nil && depth <= maxFailureDepth; depth++ {"},
+		Variant{Name: "benign: same loop seen by C17", Property: "C17", File: rep, Benign: true,
+			Old: "\tfor count := 0; failure != nil && count < maxFailureDepth; count++ {", New: "\tfor depth := 1; failure != nil && depth <= maxFailureDepth; depth++ {"},
+		Variant{Name: "benign: remapped shard id written inside the literal", Property: "C07", File: ast, Benign: true,
+			Old: "\t\tnewSourceShardID := history.ClusterShardID{\n\t\t\tClusterID: sourceClusterShardID.ClusterID,\n\t\t}\n\t\t// Remap shard id using the pre-calculated target shard count.\n\t\tnewSourceShardID.ShardID = mapShardIDUnique(lcmParameters.LCM, lcmParameters.TargetShardCount, sourceClusterShardID.ShardID)\n", New: "\t\tnewSourceShardID := history.ClusterShardID{\n\t\t\tClusterID: sourceClusterShardID.ClusterID,\n\t\t\tShardID:   mapShardIDUnique(lcmParameters.LCM, lcmParameters.TargetShardCount, sourceClusterShardID.ShardID),\n\t\t}\n"},
+		Variant{Name: "benign: observer warns with a lock-free diagnostic while holding the lock", Property: "C20", File: obs, Benign: true,
+			Old: "\t\tnewSize := min((int(idx)+1)*9, math.MaxInt32) / 8\n", New: "\t\tnewSize := min((int(idx)+1)*9, math.MaxInt32) / 8\n\t\tif newSize > 1<<20 {\n\t\t\ts.logger.Warn(\"large observer table\", tag.NewInt(\"size\", newSize))\n\t\t}\n"},
+		Variant{Name: "benign: key chosen first, stored once", Property: "C14", File: refl, Benign: true,
+			Old: "\t\tif matched && key != newKey {\n\t\t\tnewIndexed[newKey] = value\n\t\t} else {\n\t\t\tnewIndexed[key] = value\n\t\t}\n", New: "\t\ttarget := key\n\t\tif matched && key != newKey {\n\t\t\ttarget = newKey\n\t\t}\n\t\tnewIndexed[target] = value\n"},
+		Variant{Name: "benign: key chosen first, stored once (C13 view)", Property: "C13", File: refl, Benign: true,
+			Old: "\t\tif matched && key != newKey {\n\t\t\tnewIndexed[newKey] = value\n\t\t} else {\n\t\t\tnewIndexed[key] = value\n\t\t}\n", New: "\t\ttarget := key\n\t\tif matched && key != newKey {\n\t\t\ttarget = newKey\n\t\t}\n\t\tnewIndexed[target] = value\n"},
+	)
 }
